@@ -114,3 +114,85 @@ Proof.
   injection E as -> _. exact (proj1 (char_generate_sound b (coPub c) ws cand rest Er)).
 Qed.
 End Api.
+
+(** ---- the worklist closure is sound: if [explore] answers true, every (function, private
+    parameters) pair reachable from the entry points through the call edges has only private stores ---- *)
+From Coq Require Import String.
+Section Closure.
+Variable funcs : list (string * bool * string * list (string * string)).
+Variable stores : list (string * nat * string * string).
+Variable calls : list (string * string * list (nat * string)).
+Variable direct : list (string * nat * string * nat).
+Notation item := (string * list nat)%type.
+Notation stores_ok := (stores_ok funcs stores direct).
+Notation callees := (callees funcs calls).
+Notation explore := (explore funcs stores calls direct).
+
+Lemma nats_eqb_eq x : forall y, nats_eqb x y = true <-> x = y.
+Proof.
+  induction x as [|a x IH]; intros [|c y]; cbn [nats_eqb]; try (split; [discriminate|discriminate]); [tauto|].
+  rewrite andb_true_iff, Nat.eqb_eq, IH. split; [intros [-> ->]; reflexivity|intros [= -> ->]; auto].
+Qed.
+Lemma item_eqb_eq (x y : item) : item_eqb x y = true <-> x = y.
+Proof.
+  unfold item_eqb. rewrite andb_true_iff, String.eqb_eq, nats_eqb_eq. destruct x, y; cbn. split; [intros [-> ->]; reflexivity|intros [= -> ->]; auto].
+Qed.
+Lemma memq_In (it : item) l : existsb (item_eqb it) l = true <-> In it l.
+Proof.
+  rewrite existsb_exists. split.
+  - intros (y & Hy & E). apply item_eqb_eq in E. subst. exact Hy.
+  - intros H. exists it. split; [exact H|apply item_eqb_eq; reflexivity].
+Qed.
+
+(** an item is settled w.r.t. a set: its stores are private and all its callees are in the set *)
+Definition settled (final : list item) (it : item) : Prop :=
+  stores_ok (fst it) (snd it) = true /\ exists cs, callees (fst it) = Some cs /\ forall c, In c cs -> In c final.
+
+Lemma explore_sound fuel : forall todo seen,
+  explore fuel todo seen = true ->
+  (forall it, In it seen -> settled (seen ++ todo) it) ->
+  exists final, (forall it, In it (seen ++ todo) -> In it final) /\ forall it, In it final -> settled final it.
+Proof.
+  induction fuel as [|fuel IH]; intros todo seen He Hpre; [discriminate|].
+  cbn [Sched.explore] in He. destruct todo as [|it rest].
+  - exists seen. split; [intros x Hx; rewrite app_nil_r in Hx; exact Hx|].
+    intros x Hx. destruct (Hpre x Hx) as (H1 & cs & H2 & H3). split; [exact H1|]. exists cs. split; [exact H2|].
+    intros c Hc. specialize (H3 c Hc). rewrite app_nil_r in H3. exact H3.
+  - destruct (existsb (item_eqb it) seen) eqn:Es.
+    + apply memq_In in Es. destruct (IH rest seen He) as (final & Hsub & Hok).
+      * intros x Hx. destruct (Hpre x Hx) as (H1 & cs & H2 & H3). split; [exact H1|]. exists cs. split; [exact H2|].
+        intros c Hc. specialize (H3 c Hc). apply in_app_iff in H3. apply in_app_iff. destruct H3 as [H3|[<-|H3]]; auto.
+      * exists final. split; [|exact Hok]. intros x Hx. apply Hsub. apply in_app_iff in Hx. apply in_app_iff.
+        destruct Hx as [Hx|[<-|Hx]]; auto.
+    + destruct (stores_ok (fst it) (snd it)) eqn:Eo; [|discriminate].
+      destruct (callees (fst it)) as [cs|] eqn:Ec; [|discriminate].
+      destruct (IH (cs ++ rest) (it :: seen) He) as (final & Hsub & Hok).
+      * intros x [<-|Hx].
+        -- split; [exact Eo|]. exists cs. split; [exact Ec|]. intros c Hc. right. apply in_app_iff. right. apply in_app_iff. left. exact Hc.
+        -- destruct (Hpre x Hx) as (H1 & cs' & H2 & H3). split; [exact H1|]. exists cs'. split; [exact H2|].
+           intros c Hc. specialize (H3 c Hc). apply in_app_iff in H3. destruct H3 as [H3|[<-|H3]].
+           ++ right. apply in_app_iff. left. exact H3.
+           ++ left. reflexivity.
+           ++ right. apply in_app_iff. right. apply in_app_iff. right. exact H3.
+      * exists final. split; [|exact Hok]. intros x Hx. apply Hsub. apply in_app_iff in Hx. destruct Hx as [Hx|[<-|Hx]].
+        -- right. apply in_app_iff. left. exact Hx.
+        -- left. reflexivity.
+        -- right. apply in_app_iff. right. apply in_app_iff. right. exact Hx.
+Qed.
+
+(** reachability over the call edges, with the private-parameter sets the call sites determine *)
+Inductive reaches (entries : list item) : item -> Prop :=
+| reach_entry it : In it entries -> reaches entries it
+| reach_call it cs c : reaches entries it -> callees (fst it) = Some cs -> In c cs -> reaches entries c.
+
+Theorem explore_covers fuel entries : explore fuel entries [] = true ->
+  forall it, reaches entries it -> stores_ok (fst it) (snd it) = true.
+Proof.
+  intros He. destruct (explore_sound fuel entries [] He) as (final & Hsub & Hok); [intros x []|].
+  assert (Hin : forall it, reaches entries it -> In it final).
+  { intros it Hr. induction Hr as [it Hi|it cs c _ IH Hc Hcin].
+    - apply Hsub. exact Hi.
+    - destruct (Hok it IH) as (_ & cs' & Hc' & Hall). rewrite Hc in Hc'. injection Hc' as <-. apply Hall. exact Hcin. }
+  intros it Hr. exact (proj1 (Hok it (Hin it Hr))).
+Qed.
+End Closure.
